@@ -248,7 +248,7 @@ def _args_for(draw, letters, S, q, rmin=0.0):
         if lc == "a":
             rx = draw(rad)
             ry = rx if draw(st.integers(0, 3)) == 0 else draw(rad)
-            rot = draw(st.sampled_from([0.0, 0.0, 0.0, 30.0, 90.0, -45.0, 17.5]))
+            rot = draw(st.sampled_from([0.0, 0.0, 0.0, 30.0, 90.0, 90.0, 270.0, 180.0, -45.0, 17.5]))
             if draw(st.integers(0, 4)) == 0:  # chord much longer than the ellipse: radii get scaled up
                 dx, dy = 3.0 * max(rx, ry) * draw(st.sampled_from([1, -1])), max(rx, ry) * draw(unit)
                 if draw(st.integers(0, 1)):
@@ -449,7 +449,7 @@ def nearmiss_case(draw, arcs=False):
     elif pair == "same-arc-params":
         # end points and control points are the image under T, the arcs keep their written parameters
         # (radii scaled by the lengths of T's basis vectors, rotation and flags as in s1)
-        kind = draw(st.sampled_from(["rotate", "similarity", "axis-mirror", "edge-mirror", "rotate", "axis-scale"]))
+        kind = draw(st.sampled_from(["rotate", "similarity", "axis-mirror", "edge-mirror", "rotate", "axis-scale", "axis-scale", "axis-scale"]))
         T = draw(_transform(kind, norm1, S))
         items = []
         for K, pts, params in R.apply(norm1, T):
